@@ -134,7 +134,8 @@ func (r *Report) Violate(key, what string, cost int, replay interface{}) {
 				generic = true
 			}
 		}
-		if !generic {
+		// (VERIF_AS_KEEP=all: the other property is about the same oracle, every verdict counts)
+		if !generic && os.Getenv("VERIF_AS_KEEP") != "all" {
 			return
 		}
 		key = r.as + "/" + key
